@@ -234,7 +234,7 @@ def parse_nlist(s):
     return [int(x) for x in re.findall(r"(\d+)%N|\b(\d+)\b", s) for x in x if x != ""]
 
 
-def coq_check_cases(prop, header, coq_terms, check_fn, shard=250, extra_defs=""):
+def coq_check_cases(prop, header, coq_terms, check_fn, shard=250, extra_defs="", cs_type="list (case * obs)"):
     """Evaluate `check_fn cs` in the kernel VM for cs = the given (case, observation) terms.
     check_fn : list _ -> list N * list N  (indices where model<>impl, indices where the spec
     monitor rejects the implementation's observation).  Returns (mismatch_idx, monitor_idx)."""
@@ -242,7 +242,7 @@ def coq_check_cases(prop, header, coq_terms, check_fn, shard=250, extra_defs="")
     jobs = []
     for i in range(0, len(coq_terms), shard):
         chunk = coq_terms[i:i + shard]
-        body = extra_defs + "\nDefinition cs := [\n  " + ";\n  ".join(chunk) + "\n]."
+        body = extra_defs + f"\nDefinition cs : {cs_type} := [\n  " + ";\n  ".join(chunk) + "\n]."
         jobs.append((prop, i // shard, header, body, [f"{check_fn} cs"]))
     mism, monf = [], []
     with cf.ThreadPoolExecutor(max_workers=16) as ex:
@@ -386,6 +386,7 @@ class Plugin:
     check_fn = "check_all"
     model_fn = "model_obs"
     coq_targets = ()
+    cs_type = "list (case * obs)"
     shard = 250
     impl_jobs = 1
     design_ref = ""
@@ -435,7 +436,7 @@ class Plugin:
             raise CheckError(f"{self.harness_bin}: {len(outs)} outputs for {len(cases)} cases")
         obss = [self.parse_obs(c, o) for c, o in zip(cases, outs)]
         terms = [f"({self.coq_case(c)}, {self.coq_obs(o)})" for c, o in zip(cases, obss)]
-        mism, monf = coq_check_cases(self.prop, self.header, terms, self.check_fn, self.shard)
+        mism, monf = coq_check_cases(self.prop, self.header, terms, self.check_fn, self.shard, cs_type=self.cs_type)
         return obss, mism, monf
 
     def shrink(self, case, kind):
